@@ -100,6 +100,8 @@ def check_record(P, label, rec, spec, fields, xs, replay_params, pc=()):
         else:
             r = s.check(lhs != rhs)
         P.stats.solver_s += time.time() - t0
+        if f in ("count", "min", "max"):
+            P.stats.note_query(list(pc) + [lhs != rhs], r)
         if r == z3.unsat:
             P.obligation(f"{label}/{f}", "holds", symbolic=True)
             continue
